@@ -384,6 +384,7 @@ int main(int argc, char** argv)
     for (int64_t c = from; c < to; ++c)
     {
         emit(J().kv("t", "case_begin").kv("case", c).str());
+        arm_case_watchdog(40);
         const uint64_t nt_before = e.nontrivial_pairs;
         e.run_case(seed, c);
         const bool nt = e.nontrivial_pairs != nt_before;
